@@ -715,7 +715,7 @@ func propC15HQ(t veriflib.TB, outer *testing.T, c c15HQCase) {
 	var viol string
 	var nt bool
 	var classes, hist []string
-	synctest.Test(outer, func(st *testing.T) {
+	veriflib.Bubble(outer, "C15", "C15/hq", c, func(st *testing.T) {
 		viol, nt, classes = c15RunHQ(c, &hist)
 	})
 	if viol != "" {
